@@ -68,12 +68,20 @@ impl Out {
     pub fn case(&mut self, op: &str, args: &[&str], result: &str, nontrivial: bool) {
         self.n += 1;
         let id = self.n;
+        // one line per case: a field never carries a raw tab or line break (error messages quote the input)
+        fn clean(s: &str) -> std::borrow::Cow<str> {
+            if s.bytes().any(|b| b == b'\t' || b == b'\n' || b == b'\r') {
+                s.replace('\t', "\\t").replace('\n', "\\n").replace('\r', "\\r").into()
+            } else {
+                s.into()
+            }
+        }
         write!(self.cases, "{id}\t{op}").unwrap();
         for a in args {
-            write!(self.cases, "\t{a}").unwrap();
+            write!(self.cases, "\t{}", clean(a)).unwrap();
         }
         writeln!(self.cases).unwrap();
-        writeln!(self.imp, "{id}\t{result}").unwrap();
+        writeln!(self.imp, "{id}\t{}", clean(result)).unwrap();
         let mut parts = vec![op];
         parts.extend_from_slice(args);
         if self.seen.insert(fnv(&parts)) && nontrivial {
